@@ -7,11 +7,11 @@ open CC.Spec.PQ (Op Out)
 
 /-- `cc_pqueue_push` reports `CC_ERR_ALLOC` **iff** a refusal fired (the allocator's refusal
 counter moved), which happens iff the queue is full, can still grow and the allocator says no -/
-theorem push_refused_iff {cmp : Nat → Nat → Int} (tp : TotalPreorder cmp) (grow : Nat → Nat) (hg : PQueue.GrowOk grow)
-    (q : PQueue) (x : Nat) (m : Mem) (h : PQueue.Inv' cmp q) (hl : 2 ≤ m.live) :
+theorem push_refused_iff {cmp : Nat → Nat → Int} (tp : TotalPreorder cmp) (grow : Nat → Nat)
+    (q : PQueue) (x : Nat) (m : Mem) (h : PQueue.Inv' cmp q) (ht : q.triple = .conf) (hl : 2 ≤ m.live) :
     ((PQueue.push cmp grow q x m).1 = .errAlloc ↔ (PQueue.push cmp grow q x m).2.2.nrefused = m.nrefused + 1) ∧
     ((PQueue.push cmp grow q x m).1 ≠ .errAlloc → (PQueue.push cmp grow q x m).2.2.nrefused = m.nrefused) := by
-  rcases PQueue.push_counts tp grow hg q x m h (by omega) with ⟨k0, k1, _⟩ | ⟨kok, _, _, _, k2, _⟩ | ⟨kerr, _, _, _, k2, _⟩
+  rcases PQueue.push_counts tp grow q x m h ht (by omega) with ⟨k0, k1, _⟩ | ⟨kok, _, _, _, k2, _⟩ | ⟨kerr, _, _, _, k2, _⟩
   · rw [k1]
     have hne : (PQueue.push cmp grow q x m).1 ≠ .errAlloc := by
       rcases k0 with ⟨_, k0⟩ | k0 <;> rw [k0] <;> simp
@@ -23,41 +23,45 @@ theorem push_refused_iff {cmp : Nat → Nat → Int} (tp : TotalPreorder cmp) (g
 
 /-- **atomic**: after a refused push every field of the queue is what it was (so the multiset, the
 capacity and the buffer are unchanged), the ledger is balanced and nothing faulted -/
-theorem push_atomic {cmp : Nat → Nat → Int} (tp : TotalPreorder cmp) (grow : Nat → Nat) (hg : PQueue.GrowOk grow)
-    (q : PQueue) (x : Nat) (m : Mem) (h : PQueue.Inv' cmp q) (hl : 2 ≤ m.live)
+theorem push_atomic {cmp : Nat → Nat → Int} (tp : TotalPreorder cmp) (grow : Nat → Nat)
+    (q : PQueue) (x : Nat) (m : Mem) (h : PQueue.Inv' cmp q) (hl : 2 ≤ m.liveT q.triple)
     (hst : (PQueue.push cmp grow q x m).1 = .errAlloc) :
-    (PQueue.push cmp grow q x m).2.1 = q ∧ (PQueue.push cmp grow q x m).2.2.live = m.live ∧
+    (PQueue.push cmp grow q x m).2.1 = q ∧ (PQueue.push cmp grow q x m).2.2.liveT q.triple = m.liveT q.triple ∧
     (PQueue.push cmp grow q x m).2.2.fault = m.fault :=
-  ⟨C10.push_refused_inert tp grow hg q x m h hl (by rw [hst]; simp),
-   (PQueue.push_mem tp grow hg q x m h (by omega)).1, (PQueue.push_mem tp grow hg q x m h (by omega)).2⟩
+  ⟨C10.push_refused_inert tp grow q x m h hl (by rw [hst]; simp),
+   (PQueue.push_mem tp grow q x m h (by omega)).1, (PQueue.push_mem tp grow q x m h (by omega)).2⟩
 
 /-- **continue**: a history that starts with a refused push behaves, on the queue, exactly like
 the history without that push run from the ledger the refusal left behind -/
-theorem refused_push_skipped {cmp : Nat → Nat → Int} (tp : TotalPreorder cmp) (grow : Nat → Nat) (hg : PQueue.GrowOk grow)
-    (q : PQueue) (x : Nat) (ops : List Op) (m : Mem) (h : PQueue.Inv' cmp q) (hl : 2 ≤ m.live)
+theorem refused_push_skipped {cmp : Nat → Nat → Int} (tp : TotalPreorder cmp) (grow : Nat → Nat)
+    (q : PQueue) (x : Nat) (ops : List Op) (m : Mem) (h : PQueue.Inv' cmp q) (hl : 2 ≤ m.liveT q.triple)
     (hst : (PQueue.push cmp grow q x m).1 = .errAlloc) :
     (PQueue.run cmp grow q (.push x :: ops) m).1 =
       ⟨.errAlloc, none⟩ :: (PQueue.run cmp grow q ops (PQueue.push cmp grow q x m).2.2).1 ∧
     (PQueue.run cmp grow q (.push x :: ops) m).2.1 = (PQueue.run cmp grow q ops (PQueue.push cmp grow q x m).2.2).2.1 := by
-  have hq := (push_atomic tp grow hg q x m h hl hst).1
+  have hq := (push_atomic tp grow q x m h hl hst).1
   simp only [PQueue.run, PQueue.step, hst, hq]
   exact ⟨trivial, trivial⟩
 
-/-- with an allocator that does not refuse, push never reports `CC_ERR_ALLOC` -/
-theorem push_no_refusal {cmp : Nat → Nat → Int} (tp : TotalPreorder cmp) (grow : Nat → Nat) (hg : PQueue.GrowOk grow)
-    (q : PQueue) (x : Nat) (m : Mem) (h : PQueue.Inv' cmp q) (hl : 2 ≤ m.live) (hs : m.sched = []) :
+/-- with an allocator that does not refuse — an empty schedule, or the C library (`cc_pqueue_new`),
+which the harness never refuses — push never reports `CC_ERR_ALLOC` -/
+theorem push_no_refusal {cmp : Nat → Nat → Int} (tp : TotalPreorder cmp) (grow : Nat → Nat)
+    (q : PQueue) (x : Nat) (m : Mem) (h : PQueue.Inv' cmp q) (hl : 2 ≤ m.liveT q.triple)
+    (hs : m.sched = [] ∨ q.triple = .libc) :
     (PQueue.push cmp grow q x m).1 ≠ .errAlloc := by
-  rcases PQueue.push_spec tp grow hg q x m h (by omega) with ⟨e, _⟩ | ⟨⟨⟨_, e⟩ | e, _⟩⟩
+  rcases PQueue.push_spec tp grow q x m h (by omega) with ⟨e, _⟩ | ⟨⟨⟨_, e⟩ | e, _⟩⟩
   · rw [e]; simp
-  · rw [(Mem.alloc_nil m hs).1] at e; cases e
+  · rcases hs with hs | hs
+    · rw [(Mem.allocT_nil m q.triple hs).1] at e; cases e
+    · rw [hs] at e; cases e
   · rw [e]; simp
 
 /-- the constructor: `CC_ERR_ALLOC` iff the capacity is acceptable and one of its two allocator
 calls is refused; then no queue exists and the ledger is balanced -/
-theorem new_refused_iff (cap : Nat) (exGe : Nat → Bool) (m : Mem) :
-    (PQueue.new cap exGe m).1 = .errAlloc ↔
+theorem new_refused_iff (cap : Nat) (exGe : Nat → Bool) (t : Triple) (m : Mem) :
+    (PQueue.new cap exGe t m).1 = .errAlloc ↔
       (¬ (cap = 0 ∨ exGe (Gen.CC_MAX_ELEMENTS / cap) = true) ∧ ¬ cap > Gen.CC_MAX_ELEMENTS / PQueue.ptrSize ∧
-       (m.alloc.1 = false ∨ m.alloc.2.alloc.1 = false)) := by
+       ((m.allocT t).1 = false ∨ ((m.allocT t).2.allocT t).1 = false)) := by
   unfold PQueue.new
   by_cases h1 : (cap = 0 || exGe (Gen.CC_MAX_ELEMENTS / cap)) = true
   · have : cap = 0 ∨ exGe (Gen.CC_MAX_ELEMENTS / cap) = true := by simpa using h1
@@ -66,13 +70,13 @@ theorem new_refused_iff (cap : Nat) (exGe : Nat → Bool) (m : Mem) :
     by_cases h2 : cap > Gen.CC_MAX_ELEMENTS / PQueue.ptrSize
     · simp [h1, h2]
     · simp only [h1, h2, if_false, h1', not_false_eq_true, true_and]
-      cases m.alloc.1 <;> cases m.alloc.2.alloc.1 <;> simp
+      cases (m.allocT t).1 <;> cases ((m.allocT t).2.allocT t).1 <;> simp
 
-theorem new_atomic (cmp : Nat → Nat → Int) (cap : Nat) (exGe : Nat → Bool) (m : Mem) (hex : exGe 0 = true)
-    (h : (PQueue.new cap exGe m).1 = .errAlloc) :
-    (PQueue.new cap exGe m).2.1 = none ∧ (PQueue.new cap exGe m).2.2.live = m.live ∧
-    (PQueue.new cap exGe m).2.2.fault = m.fault :=
-  C10.new_refused cmp cap exGe m hex (by rw [h]; simp)
+theorem new_atomic (cmp : Nat → Nat → Int) (cap : Nat) (exGe : Nat → Bool) (t : Triple) (m : Mem)
+    (h : (PQueue.new cap exGe t m).1 = .errAlloc) :
+    (PQueue.new cap exGe t m).2.1 = none ∧ (PQueue.new cap exGe t m).2.2.liveT t = m.liveT t ∧
+    (PQueue.new cap exGe t m).2.2.fault = m.fault :=
+  C10.new_refused cmp cap exGe t m (by rw [h]; simp)
 
 /-- `top` and `pop` never call the allocator: the ledger record comes back unchanged -/
 theorem top_pop_do_not_allocate {cmp : Nat → Nat → Int} (tp : TotalPreorder cmp) (q : PQueue) (m : Mem)
@@ -82,5 +86,10 @@ theorem top_pop_do_not_allocate {cmp : Nat → Nat → Int} (tp : TotalPreorder 
   · rcases PQueue.pop_spec tp q m h with ⟨_, e⟩ | ⟨x, _, _, _, _, _, _, e⟩
     · rw [e]
     · exact e
+
+/-! Non-vacuity: a full queue, a ledger whose next allocator call is refused -/
+example : PQueue.Inv' (keyCmp id) { size := 2, capacity := 2, buf := [9, 4] } ∧
+    (({ live := 2, sched := [true] } : Mem).allocT Triple.conf).1 = false := by
+  refine ⟨⟨by decide, by decide⟩, by decide⟩
 
 end CC.Properties.C08PQueue
